@@ -170,6 +170,23 @@ def _longest(ck: Checker) -> None:
                 kt = norm(key).replace(" ", "") if key is not None else ""
                 ordered = (isinstance(rev, ast.Constant) and rev.value is True and "len(" in kt and "[0]" in kt) or (rev is None and "-len(" in kt)
                 sort_node = n
+    if not ordered and sort_node is not None and apps:
+        # the length may be stored in the candidate itself: `matches.append((len(prefix), storage))`, key=lambda m: m[0]
+        import re as _re2
+
+        for n_ in g.nodes.values():
+            for c_ in calls_at(n_):
+                srt = c_ if is_method_call(c_, "sort") and norm(c_.func.value) == lst else (c_ if call_name(c_) == "sorted" and c_.args and norm(c_.args[0]) == lst else None)
+                if srt is None:
+                    continue
+                key = next((k.value for k in srt.keywords if k.arg == "key"), None)
+                rev = next((k.value for k in srt.keywords if k.arg == "reverse"), None)
+                m_ = _re2.fullmatch(r"lambda(\w+):\1\[(\d+)\]", norm(key).replace(" ", "")) if key is not None else None
+                if m_ and isinstance(rev, ast.Constant) and rev.value is True:
+                    idx = int(m_.group(2))
+                    rows = [c2.args[0] for _n2, c2 in apps if c2.args and isinstance(c2.args[0], ast.Tuple) and len(c2.args[0].elts) > idx]
+                    if rows and len(rows) == len(apps) and all(_re2.fullmatch(r"len\(\w+\)", _txt(r_.elts[idx])) for r_ in rows):
+                        ordered = True
     ck.require(ordered, "C18.longest", fn, sort_node or fn.node, "candidates are ordered by descending prefix length", "candidates are not ordered longest-prefix-first: a shorter prefix's storage can shadow the designated one")
     # per role: first non-None wins
     pick = [h for h in g.nodes.values() if h.kind == "for" and sort_node is not None and avoiding_path(g, h.id, lambda x: x.id == sort_node.id) is None and h.id != (apps[0][0].loops[-1] if apps and apps[0][0].loops else -1) and norm(h.ast.iter) == lst]
@@ -193,6 +210,23 @@ def _longest(ck: Checker) -> None:
     ck.require(any({k.arg: norm(k.value) for k in r.value.keywords} == {x: x for x in ROLES} for r in rets), "C18.longest", fn, fn.node, "result carries data/cache/remote in their own fields", "StorageInfo is not built as (data=data, cache=cache, remote=remote)", construct="return StorageInfo(...)")
 
 
+def root_mapping_canon(fn: Func):
+    """text -> text with `<alias>.` / `fs_index.storage_map[()].` stripped, where <alias> is a local bound to the root
+    mapping `fs_index.storage_map[()]`: `root_info.data.odb` reads as `data.odb`."""
+    aliases = ["fs_index.storage_map[()]"]
+    for nm, ds in scope_of(fn).defs.items():
+        vals = [getattr(d, "value", None) for d in ds if d.kind in ("assign", "annassign")]
+        if vals and len(vals) == len(ds) and all(v is not None and norm(v) == "fs_index.storage_map[()]" for v in vals):
+            aliases.append(nm)
+
+    def canon(t: str) -> str:
+        for a in aliases:
+            t = t.replace(a + ".", "")
+        return t
+
+    return canon
+
+
 def _roles(ck: Checker) -> None:
     prog = ck.prog
     tr = prog.func("hashfile.transfer", "transfer")
@@ -204,9 +238,14 @@ def _roles(ck: Checker) -> None:
         ck.floor("C18.roles", len(calls), 1, f"transfer() calls in {name}")
         for n, c in calls:
             s, d = get_arg(c, tr, "src", pos=0), get_arg(c, tr, "dest", pos=1)
-            ck.require(s is not None and d is not None and norm(s) == src and norm(d) == dest, "C18.roles", fn, n, f"{name} moves {src} -> {dest}", f"{name} calls transfer({norm(s) if s is not None else None}, {norm(d) if d is not None else None}, ...): source and destination roles are wrong", construct=f"{name}: transfer(src, dest)")
+            canon = root_mapping_canon(fn)
+            ck.require(s is not None and d is not None and canon(norm(s)) == src and canon(norm(d)) == dest, "C18.roles", fn, n, f"{name} moves {src} -> {dest}", f"{name} calls transfer({norm(s) if s is not None else None}, {norm(d) if d is not None else None}, ...): source and destination roles are wrong", construct=f"{name}: transfer(src, dest)")
             for role in ("data", "cache"):
                 defs = reaching_defs(g, n.id, role)
+                if not defs and role not in {x.id for x in walk_expr(c) if isinstance(x, ast.Name)}:
+                    # no local of that name: the storages are read straight off the root mapping (checked above)
+                    ck.ok("C18.roles", fn, n, f"`{role}` is read from the root mapping at the call", construct=f"{name}: {role} binding")
+                    continue
                 def _full(x):
                     v = getattr(x.ast, "value", None)
                     if v is None:
@@ -223,7 +262,7 @@ def _roles(ck: Checker) -> None:
                 ok = bool(defs) and all(f"fs_index.storage_map[()].{role}" in _full(x) for x in defs)
                 ck.require(ok, "C18.roles", fn, n, f"`{role}` is the root mapping's {role} storage", f"`{role}` is bound to {[norm(getattr(x.ast, 'value', None)) for x in defs]}", construct=f"{name}: {role} binding")
             # guarded by both being object storages
-            w = cut(g, [n.id], lambda t, lab: t.kind == "test" and lab == "T" and norm(t.ast) == "isinstance(data, ObjectStorage)")
+            w = cut(g, [n.id], lambda t, lab: t.kind == "test" and lab == "T" and canon(norm(t.ast)) == "isinstance(data, ObjectStorage)")
             ck.require(w is None, "C18.roles", fn, n, "object transfer is used only between object stores", "object transfer can be attempted on a non-object storage", construct=f"{name}: isinstance guard")
             res_name = None
             for x in g.nodes.values():
